@@ -54,7 +54,7 @@ func ToVal(s *schema.Node, v string) (val.Value, error) {
 		return val.NotEmpty, nil
 	case "identityref":
 		return val.IdentRef{Label: v}, nil
-	case "union":
+	case "union", "unione":
 		if n, err := strconv.ParseInt(v, 10, 32); err == nil {
 			return val.Int32(n), nil
 		}
@@ -126,7 +126,7 @@ func ToValList(s *schema.Node, vs []string) (val.Value, error) {
 			out[i] = f
 		}
 		return val.Decimal64List(out), nil
-	case "union":
+	case "union", "unione":
 		// the first member type that takes every item: int32, else string
 		ints := make([]int32, len(vs))
 		allInt := true
